@@ -60,9 +60,9 @@ func hjs(v []he) [][2]int {
 
 func c05exec(c *Ctx, st *c05state, op Op) Ev {
 	name := gets(op, "op")
-	ev := Ev{"op": name, "dir": st.dir, "upd": 1, "e": [2]int{0, 0}, "i": geti(op, "i"), "vs": [][2]int{},
+	ev := Ev{"op": name, "kind": "small", "lastpos": []int{}, "dir": st.dir, "upd": 1, "e": [2]int{0, 0}, "i": geti(op, "i"), "vs": [][2]int{},
 		"ret": [2]int{0, 0}, "rok": true, "ri": -1, "peek": [3]int{0, 0, 0}, "len": 0, "empty": true,
-		"front": [2]int{0, 0}, "arr": [][2]int{}, "moves": [][2]int{}, "target": geti(op, "target"), "out": [][2]int{}}
+		"front": [2]int{0, 0}, "arr": [][2]int{}, "moves": [][2]int{}, "target": geti(op, "target"), "out": [][2]int{}, "spare": geti(op, "spare")}
 	guard(ev, func() {
 		st.moves = nil
 		switch name {
@@ -128,6 +128,11 @@ func c05exec(c *Ctx, st *c05state, op Op) Ev {
 }
 
 func replayC05(c *Ctx, h *Hist, ops []Op) {
+	if len(ops) > 0 && gets(ops[0], "kind") == "big" {
+		c.Seed = int64(geti(ops[0], "gseed"))
+		c06bigOne(c, h, geti(ops[0], "gi"))
+		return
+	}
 	st := &c05state{dir: 1}
 	for i, op := range ops {
 		if i == 0 && gets(op, "op") != "new" {
@@ -164,7 +169,7 @@ func c05random(c *Ctx, label string, nh int, distinct bool) {
 				p := 1 + rng.Intn(prioRange)
 				if distinct {
 					for used[p] {
-						p = 1 + rng.Intn(1000)
+						p = 1 + rng.Intn(1<<20)
 					}
 					used[p] = true
 				}
@@ -189,7 +194,28 @@ func c05random(c *Ctx, label string, nh int, distinct bool) {
 				}
 				return
 			}
-			do(Op{"op": "new", "dir": dir, "vs": mkn([]int{0, 0, 1, 2, 5, 9, 17}[rng.Intn(7)]), "spare": rng.Intn(4)})
+			if !distinct && label == "c05" && i%12 == 11 && i < 60 {
+			// a large buffer that holds little: pre-allocated (as NewWithData's documentation
+			// suggests), emptied by Clear, or replaced by a short Set; then Pop / Set / Pop
+			// (only Set-built heaps and Pop, which the known findings do not touch)
+			do(Op{"op": "new", "dir": dir, "vs": mkn(rng.Intn(3)), "spare": 4096 + rng.Intn(6000)})
+			do(Op{"op": "pop"})
+			do(Op{"op": "set", "vs": mkn(4200 + rng.Intn(3000))})
+			do(Op{"op": "pop"})
+			if rng.Intn(2) == 0 {
+				do(Op{"op": "clear"})
+			} else {
+				do(Op{"op": "set", "vs": mkn(1 + rng.Intn(4))})
+			}
+			do(Op{"op": "pop"})
+			do(Op{"op": "set", "vs": mkn(2 + rng.Intn(4))})
+			for st.q.Len() > 0 {
+				do(Op{"op": "pop"})
+			}
+			do(Op{"op": "pop"})
+			return
+		}
+		do(Op{"op": "new", "dir": dir, "vs": mkn([]int{0, 0, 1, 2, 5, 9, 17}[rng.Intn(7)]), "spare": rng.Intn(4)})
 			maxLen := []int{8, 16, 40}[rng.Intn(3)]
 			nops := 30 + rng.Intn(c.Pick(70, 160))
 			for j := 0; j < nops; j++ {
@@ -303,4 +329,56 @@ func runC06(c *Ctx) {
 		replayC05(c, c.NewHist("tlc-path"), p)
 	}
 	c05random(c, "c06", c.Pick(240, 6000), true)
+	c05random(c, "c06-ties", c.Pick(180, 4000), false) // distinct elements of equal priority
+	c06big(c)
+}
+
+// c06big: more than 2^16 elements, so that offsets no longer fit 16 bits.  The
+// callback log is applied by the driver (lastpos[id] = most recent report); the
+// event carries the array and that table instead of the raw log.
+func c06big(c *Ctx) {
+	for i := 0; i < c.Pick(1, 4); i++ {
+		c06bigOne(c, c.NewHist("big-heap"), i)
+	}
+}
+
+func c06bigOne(c *Ctx, h *Hist, i int) {
+	{
+		rng := c.Rng("c06-big", i)
+		n := 66000 + rng.Intn(6000)
+		last := make([]int, n+1)
+		q := heapq.New(func(a, b he) int { return a.P - b.P }).Update(func(e he, p int) { last[e.ID] = p })
+		emit := func(name string, ret he, ok bool, target int) {
+			arr := make([][2]int, 0, q.Len())
+			q.Each(func(e he) bool { arr = append(arr, hj(e)); return true })
+			h.Emit(Ev{"op": name, "kind": "big", "arr": arr, "lastpos": last[1:], "ret": hj(ret), "rok": ok, "target": target, "len": q.Len(),
+				"dir": 1, "upd": 1, "e": [2]int{0, 0}, "i": 0, "vs": [][2]int{}, "ri": -1, "peek": [3]int{0, 0, 0}, "empty": q.IsEmpty(),
+				"front": hj(q.Front()), "moves": [][2]int{}, "out": [][2]int{}, "spare": 0, "gi": i, "gseed": int(c.Seed)})
+		}
+		vs := make([]he, n)
+		for j := range vs {
+			vs[j] = he{P: 1 + rng.Intn(1<<20), ID: j + 1}
+		}
+		q.Set(vs)
+		emit("new", he{}, true, 0) // first event of a history
+		for k := 0; k < 3; k++ {
+			r, ok := q.Pop()
+			last[r.ID] = -1
+			emit("pop", r, ok, 0)
+		}
+		// remove an element through its reported position, deep in the array
+		var deep he
+		pos := 0
+		q.Each(func(e he) bool {
+			if pos == 65536+rng.Intn(400) || pos == q.Len()-2 {
+				deep = e
+				return false
+			}
+			pos++
+			return true
+		})
+		r, ok := q.Remove(last[deep.ID])
+		last[r.ID] = -1
+		emit("remove", r, ok, deep.ID)
+	}
 }
